@@ -198,12 +198,29 @@ func monBurnLock(rep *report.Report, cs c16MsgCase) {
 
 var c16Symbols = []string{"ceth", "cusdc", "ccat", "c", "cc", "xcy", "ethc", "eth", "Ceth", "cC", "rowan", "xrowan", "cweird", "ibc/FEEDFACE", "acb", "", "usdc"}
 
+// c16Spell: one of the spellings of an Ethereum address that common.IsHexAddress accepts.
+func c16Spell(rng *chain.Rng, a string) string {
+	switch rng.Intn(8) {
+	case 0:
+		return strings.ToLower(a)
+	case 1:
+		return "0x" + strings.ToUpper(a[2:])
+	case 2:
+		return a[2:]
+	case 3:
+		return "0X" + a[2:]
+	case 4:
+		return strings.ToLower(a[2:])
+	}
+	return a
+}
+
 func genAttrs(rng *chain.Rng, e *env.BridgeEnv) []c16Attr {
 	sender := e.Users[rng.Intn(len(e.Users))].Addr.String()
 	base := []c16Attr{
 		{"cosmos_sender", sender},
 		{"cosmos_sender_sequence", fmt.Sprint(rng.Intn(1000))},
-		{"ethereum_receiver", ethAddrs[rng.Intn(len(ethAddrs))]},
+		{"ethereum_receiver", c16Spell(rng, ethAddrs[rng.Intn(len(ethAddrs))])},
 		{"symbol", c16Symbols[rng.Intn(len(c16Symbols))]},
 		{"amount", rng.LogUniform(60).String()},
 	}
@@ -611,6 +628,18 @@ func C16(c Ctx) *report.Report {
 		} else {
 			m := ethbridgetypes.NewMsgLock(1, u.Addr, ethbridgetypes.NewEthereumAddress(eth), sdk.NewIntFromBigInt(amount), sym, sdk.NewIntFromBigInt(ceth))
 			msg = &m
+		}
+		// the receiver as a client may spell it in the message (ValidateBasic accepts what common.IsHexAddress accepts); the
+		// chain's event repeats the spelling
+		spelled := c16Spell(rng, eth)
+		if spelled != eth {
+			rep.Count("end-to-end.receiver-spelled-otherwise")
+		}
+		switch m := msg.(type) {
+		case *ethbridgetypes.MsgBurn:
+			m.EthereumReceiver = spelled
+		case *ethbridgetypes.MsgLock:
+			m.EthereumReceiver = spelled
 		}
 		res := e.Tx(u, msg)
 		if res.Code != 0 {
